@@ -867,10 +867,13 @@ impl<'ast, 'res> Resolver<'ast, 'res> {
                             }],
                         ),
                     },
+                    // Each operand must itself be boolean, null (falsy) or dynamically typed:
+                    // a null or dynamic operand does not excuse the other one.
                     BinaryOp::And | BinaryOp::Or => match (l, r) {
-                        (Some(ValueType::Bool), Some(ValueType::Bool))
-                        | (Some(ValueType::Null | ValueType::Dynamic), ..)
-                        | (.., Some(ValueType::Null | ValueType::Dynamic)) => {}
+                        (
+                            Some(ValueType::Bool | ValueType::Null | ValueType::Dynamic),
+                            Some(ValueType::Bool | ValueType::Null | ValueType::Dynamic),
+                        ) => {}
                         _ => {
                             self.emit_error(
                                 *span,
@@ -1262,9 +1265,10 @@ impl<'ast, 'res> Resolver<'ast, 'res> {
                         _ => None,
                     },
                     BinaryOp::And | BinaryOp::Or => match (l, r) {
-                        (ValueType::Bool, ValueType::Bool)
-                        | (ValueType::Null | ValueType::Dynamic, ..)
-                        | (.., ValueType::Null | ValueType::Dynamic) => Some(ValueType::Bool),
+                        (
+                            ValueType::Bool | ValueType::Null | ValueType::Dynamic,
+                            ValueType::Bool | ValueType::Null | ValueType::Dynamic,
+                        ) => Some(ValueType::Bool),
                         _ => None,
                     },
                 }
